@@ -35,6 +35,10 @@ class FakeTransport(asyncio.Transport):
         self.drain_delay = None
         self.buffer = []
         self.discarded = []
+        # a stalled peer (C15): with `hold` set, whatever is written stays unsent in `buffer`
+        # until the harness calls release(); close() then stays pending (is_closing() true, no
+        # connection_lost) as long as the buffer is non-empty, abort()/drop() discard it
+        self.hold = False
 
     # ---- asyncio.Transport API used by aiorpcx
     def get_extra_info(self, name, default=None):
@@ -47,7 +51,9 @@ class FakeTransport(asyncio.Transport):
         if self.closing:
             self.log.append((self.loop.time(), 'write-after-close', bytes(data)))
             return
-        if self.drain_delay:
+        if self.hold:
+            self.buffer.append(bytes(data))
+        elif self.drain_delay:
             self.buffer.append(bytes(data))
             self.loop.call_later(self.drain_delay, self._drain_one)
         else:
@@ -65,6 +71,14 @@ class FakeTransport(asyncio.Transport):
         if self.buffer:
             self.out.append(self.buffer.pop(0))
         if self.closing and not self.buffer and not self.lost_delivered:
+            self.loop.call_soon(self._deliver_lost)
+
+    def release(self):
+        """the peer consumed everything that was unsent (see `hold`); a pending graceful close
+        completes"""
+        self.out += self.buffer
+        self.buffer = []
+        if self.closing and not self.lost_delivered:
             self.loop.call_soon(self._deliver_lost)
 
     def _lose(self, flush=False):
